@@ -84,6 +84,33 @@ pub fn families() -> Vec<Box<dyn Family>> {
             },
         ),
         family(
+            "fuel_far",
+            "large edit distances under a deadline: lopsided replaced blocks (10..1500 old items replaced by 10..1500 unrelated new items between a common head and tail) and mostly unrelated sequences of 400..1500 items sharing a few landmarks x {Myers, Patience} (LCS up to 300 items): deadline present but never expiring == no deadline, plus up to 16 sampled expiry points, raw and captured",
+            false,
+            1,
+            |cfg| cfg.n(60, 1_200),
+            |idx, cfg, out| {
+                let mut rng = Rng::for_case(cfg.seed, "c07.fuel_far", idx);
+                let (a, b) = if cfg.tiny {
+                    gen::asymmetric_replace(&mut rng, 1, 1, 4, 1)
+                } else if idx % 3 == 0 {
+                    let (n, m) = (rng.range(400, 1500), rng.range(400, 1500));
+                    let k = rng.range(2, 30);
+                    let crossing = rng.below(3);
+                    gen::landmark_pair(&mut rng, n, m, k, crossing)
+                } else {
+                    let sizes = [10usize, 100, 300, 600, 1000, 1500];
+                    let (l1, l2) = (*rng.pick(&sizes), *rng.pick(&sizes));
+                    let (head, tail) = (rng.below(50), rng.below(50));
+                    gen::asymmetric_replace(&mut rng, head, tail, l1, l2)
+                };
+                let alg = if a.len().max(b.len()) <= 300 && rng.chance(1, 3) { Algorithm::Lcs } else if rng.chance(1, 2) { Algorithm::Myers } else { Algorithm::Patience };
+                out.sample(|| format!("alg={} N={} M={}", alg_name(alg), a.len(), b.len()));
+                out.count("far_cases");
+                validity_case(cfg, alg, &a, 0..a.len(), &b, 0..b.len(), false, rng.below(3) as u8, out);
+            },
+        ),
+        family(
             "prompt",
             "promptness: items whose PartialEq counts comparisons and advances the virtual clock; families {random pairs, distinct items with <= 3 shared anchors (no snakes), one huge dissimilar gap in front of / behind a unique common item, periodic}; sizes up to 300 (quick) / 1200 (thorough); fuel mode: every k (sampled when P > 24) -> comparisons after the first expired check; time mode: T in {0, the time of every check (sampled), random T in 0..=W} -> comparisons after T; bound 6*(N+M)+16",
             false,
